@@ -146,6 +146,58 @@ func classOfAtoms(atoms []alphaAtom) (string, string) {
 func alphabetSites(pk *packages.Package) []alphaSite {
 	var out []alphaSite
 	info := pk.TypesInfo
+	// package-level tables keyed by the alphabet constants: `map[int]T{AMINOACIDS: …ALL_AMINO…}`;
+	// the key selects the alphabet the value serves
+	for _, f := range pk.Syntax {
+		for _, d := range f.Decls {
+			gd, ok := d.(*ast.GenDecl)
+			if !ok || gd.Tok != token.VAR {
+				continue
+			}
+			for _, sp := range gd.Specs {
+				vs, ok := sp.(*ast.ValueSpec)
+				if !ok {
+					continue
+				}
+				for _, val := range vs.Values {
+					cl, ok := val.(*ast.CompositeLit)
+					if !ok {
+						continue
+					}
+					for _, el := range cl.Elts {
+						kv, ok := el.(*ast.KeyValueExpr)
+						if !ok {
+							continue
+						}
+						kid, ok := kv.Key.(*ast.Ident)
+						if !ok {
+							continue
+						}
+						ko, ok := info.Uses[kid].(*types.Const)
+						if !ok || (ko.Name() != "AMINOACIDS" && ko.Name() != "NUCLEOTIDS") {
+							continue
+						}
+						implied := map[string]string{"AMINOACIDS": "amino", "NUCLEOTIDS": "nucl"}[ko.Name()]
+						ast.Inspect(kv.Value, func(n ast.Node) bool {
+							id, ok := n.(*ast.Ident)
+							if !ok {
+								return true
+							}
+							o := info.Uses[id]
+							if o == nil || o.Pkg() == nil {
+								return true
+							}
+							if _, known := alphaObjClass[o.Name()]; !known {
+								return true
+							}
+							out = append(out, alphaSite{Func: "(package-level table)", Obj: o.Name(), Pos: id.Pos(), Implied: implied, How: "table entry under key " + ko.Name()})
+							return true
+						})
+					}
+				}
+			}
+		}
+	}
 	for _, f := range pk.Syntax {
 		for _, d := range f.Decls {
 			fd, ok := d.(*ast.FuncDecl)
@@ -391,7 +443,7 @@ func (c *Ctx) checkAlphabetConsts(rule string, funcs map[string]bool) int {
 	}
 	n := 0
 	for _, s := range alphabetSites(pk) {
-		if funcs != nil && !funcs[s.Func] {
+		if funcs != nil && !funcs[s.Func] && s.Func != "(package-level table)" {
 			continue
 		}
 		n++
